@@ -135,9 +135,9 @@ func genC17(g *G) {
 
 func init() {
 	properties["C17"] = &Property{
-		Gen:  genC17,
-		Exec: map[string]Executor{"semaseq": execSemaSeq, "onceseq": execOnceSeq},
+		Gen:   genC17,
+		Exec:  map[string]Executor{"semaseq": execSemaSeq, "onceseq": execOnceSeq},
 		Class: func(fn string, args []string, obs string) string { return fn },
-		Rule: "semaseq: sequential histories of Acquire (3 ms timeout context), Acquire (already cancelled context) and Release over capacities 0..3, judged against the model's enabled sets (a cancelled context with a free slot may give either outcome: Go's select). onceseq: sequential Get calls over 4 keys with a counting constructor, compared with the model run under the sequential schedule (which construction produced each result; constructor calls per key). The schedules themselves are explored by the -race drivers 'once' and 'sema' of cmd/conc. distinct=arguments",
+		Rule:  "semaseq: sequential histories of Acquire (3 ms timeout context), Acquire (already cancelled context) and Release over capacities 0..3, judged against the model's enabled sets (a cancelled context with a free slot may give either outcome: Go's select). onceseq: sequential Get calls over 4 keys with a counting constructor, compared with the model run under the sequential schedule (which construction produced each result; constructor calls per key). The schedules themselves are explored by the -race drivers 'once' and 'sema' of cmd/conc. distinct=arguments",
 	}
 }
